@@ -145,7 +145,7 @@ def _memcpy(M, st, a):
 
 def base_stubs():
     s = {}
-    for n in ("exp", "log", "log10", "sqrt", "cbrt", "erf", "erfc", "tanh", "sinh", "cosh", "sin", "cos", "tan", "atan", "log2", "exp10", "exp2", "floor", "ceil"):
+    for n in ("exp", "log", "log10", "sqrt", "cbrt", "erf", "erfc", "tanh", "sinh", "cosh", "sin", "cos", "tan", "atan", "asin", "acos", "asinh", "acosh", "atanh", "log2", "exp10", "exp2", "floor", "ceil"):
         s[n] = _mk_uf1(n)
     for n in ("pow", "atan2", "fmod"):
         s[n] = _mk_uf2(n)
